@@ -17,6 +17,7 @@ Unit syntax: ordinary Verus text, copied verbatim, interleaved with directives:
      //@noauto                    do not apply the automatic rules (R2, R3)
      //@sigonly                   emit only the signature + spec, terminated by ';' (trait methods)
      //@attrs derive              keep only the item's #[derive(..)] attributes
+     //@pin <sha>                 with replace_body: the assumption is tied to this body text (hash); a changed body => undecided
      //@replace_body              R8: keep the signature, drop the body (`unimplemented!()`), mark external_body: contract ASSUMED
      //@expand_decode_bits <file> <Enum> <suffix> <D>   R19+R20: expand the `decode_bits!` invocation following the macro's rules, outlined every D levels (jetgen.py)
      //@vattr <attr>              emit `#[verifier::<attr>]` before the fn (verifier-only, e.g. rlimit(80))
@@ -389,6 +390,11 @@ def weave(unit_path, repo, verif_root, vacuity=False):
                     opts["derive_keep"] = [x.strip() for x in d[len("attrs derive"):].split(",") if x.strip()]
                 elif d == "replace_body":
                     opts["replace_body"] = True
+                elif d.startswith("pin "):
+                    # //@pin <sha256 prefix of the whitespace-normalised body>: the ASSUMED contract of a replace_body /
+                    # external function was written for exactly this body; if the body changes the assumption no longer
+                    # applies and the function is reported undecided (its fallbacks run)
+                    opts["pin"] = d[4:].strip()
                 elif d == "noauto":
                     opts["noauto"] = True
                 elif d == "assert_exec":
@@ -602,6 +608,10 @@ def _do_extract_impl(repo, relfile, selector, opts, sources, log, extracted, len
         rec["external_body"] = True
         return chunks
     if opts.get("replace_body"):
+        body_sha = hashlib.sha256(" ".join(body.split()).encode()).hexdigest()[:16]
+        rec["assumed_body_sha"] = body_sha
+        if opts.get("pin") and opts["pin"] != body_sha:
+            raise LostAnchor("%s %s: the body this ASSUMED contract was written for has changed (pinned %s, found %s)" % (where, name, opts["pin"], body_sha))
         # R8: the body is outside the verifier's reach; only its contract is assumed
         log.append({"rule": "R8", "where": where, "fn": name, "before": " ".join(body.split())[:300], "after": "{ unimplemented!() }  (external_body: contract assumed)"})
         chunks.insert(0, Chunk("#[verifier::external_body]", origin("attr")))
